@@ -369,3 +369,6 @@ PROPS["C18"] = _c18()
 PROPS["C19"] = _c19()
 PROPS["C08"] = _c08()
 PROPS["C17"] = _c17()
+
+for _p in PROPS.values():
+    _p["engine_props"] = [e for eng in _p.get("engines", []) for e in getattr(eng, "props", [])]
